@@ -60,7 +60,9 @@ impl P {
             1 => bmax - rng.usize_in(0, 1),
             _ => rng.usize_in(1, bmax),
         };
-        let size = *rng.pick(&[1usize, 1, 2, 2, 2, 3, 3, 4, 5]);
+        // mostly 1..5 limbs; small radices also get long ciphertexts (6..20 limbs) so that a decryption into a plaintext of much
+        // larger radix has far fewer limbs than the ciphertext
+        let size = if b <= 12 && rng.below(6) == 0 { rng.usize_in(6, 20) } else { *rng.pick(&[1usize, 1, 2, 2, 2, 3, 3, 4, 5]) };
         let k = match rng.below(4) {
             0 => b * (size - 1) + 1,
             1 => (b * size - 1).max(b * (size - 1) + 1),
